@@ -743,6 +743,8 @@ class SymEval:
     def _loop_once(self, s, st: State, pins) -> State:
         if isinstance(s, ast.While):
             d = _counter_while(s, self.func.node if self.func is not None else None, st.env)
+            if d is None:
+                d = _probe_while(s, self.func.node if self.func is not None else None, st.env)
             if d is not None:
                 s = d
         lid = f"{self._lid_prefix}L{getattr(s, 'lineno', 0)}"
@@ -2490,6 +2492,88 @@ def _counter_while(s: ast.While, fnode, env):
     ast.copy_location(f, s)
     for n in (tgt, it):
         ast.copy_location(n, s.test)
+    ast.fix_missing_locations(f)
+    f._sa_from_while = s
+    return f
+
+
+def _read_after_loop(s, fnode, var) -> bool:
+    """`var` is loaded after the loop `s` (textually later, outside it) before a later statement of the loop's own block assigns it afresh."""
+    inside = {id(n) for n in ast.walk(s)}
+    reinit_at = None
+    for blk in ast.walk(fnode):
+        for fld in ("body", "orelse", "finalbody"):
+            lst = getattr(blk, fld, None)
+            if isinstance(lst, list) and any(x is s for x in lst):
+                k0 = next(k for k, x in enumerate(lst) if x is s)
+                for x in lst[k0 + 1:]:
+                    if isinstance(x, ast.Assign) and any(isinstance(t_, ast.Name) and t_.id == var for t_ in x.targets) and not any(isinstance(n, ast.Name) and n.id == var for n in ast.walk(x.value)):
+                        reinit_at = (x.lineno, x.col_offset)
+                        break
+                    if any(isinstance(n, ast.Name) and n.id == var for n in ast.walk(x)):
+                        break
+    for n in ast.walk(fnode):
+        if isinstance(n, ast.Name) and n.id == var and isinstance(n.ctx, ast.Load) and id(n) not in inside and (n.lineno, n.col_offset) > (s.lineno, s.col_offset):
+            if reinit_at is None or (n.lineno, n.col_offset) < reinit_at:
+                return True
+    return False
+
+
+def _probe_while(s: ast.While, fnode, env):
+    """`B = 1 << K; while B: BODY; B >>= 1` - a one-bit probe walked down from bit K to bit 0, the shift the last statement of the body, B not
+    written elsewhere in it, no `continue`, B not read once the loop is over: the counted loop
+    `for j in range(K + 1): B = 1 << (K - j); BODY`.  A second local that starts at a known integer c and is advanced by `v += 1` exactly once
+    per iteration (a top-level statement of the body) and is not read after the loop is the induction variable it is: `v = c + j` before the
+    increment, `v = c + j + 1` after it.  Returns the ast.For, or None when the loop is not of that shape."""
+    if getattr(s, "_sa_probe", False) is None or fnode is None:
+        return None
+
+    def fail():
+        s._sa_probe = None
+        return None
+
+    t = s.test
+    if isinstance(t, ast.Compare) and len(t.ops) == 1 and isinstance(t.ops[0], (ast.NotEq, ast.Gt)) and isinstance(t.comparators[0], ast.Constant) and type(t.comparators[0].value) is int and t.comparators[0].value == 0:
+        t = t.left
+    if not isinstance(t, ast.Name) or s.orelse or len(s.body) < 2:
+        return fail()
+    B = t.id
+    start = env.get(B)
+    if not (start is not None and is_const(start) and type(start[1]) is int and start[1] > 0 and start[1] & (start[1] - 1) == 0):
+        return None  # (depends on the environment: not cached)
+    K = start[1].bit_length() - 1
+    if K > 4096:
+        return fail()
+    last, rest = s.body[-1], s.body[:-1]
+    one = lambda x: isinstance(x, ast.Constant) and type(x.value) is int and x.value == 1  # noqa: E731
+    is_shift = (isinstance(last, ast.AugAssign) and isinstance(last.op, ast.RShift) and isinstance(last.target, ast.Name) and last.target.id == B and one(last.value)) or \
+               (isinstance(last, ast.Assign) and len(last.targets) == 1 and isinstance(last.targets[0], ast.Name) and last.targets[0].id == B and isinstance(last.value, ast.BinOp)
+                and isinstance(last.value.op, ast.RShift) and isinstance(last.value.left, ast.Name) and last.value.left.id == B and one(last.value.right))
+    if not is_shift or B in _assigned_names(rest) or _has(rest, (ast.Continue,)) or _read_after_loop(s, fnode, B):
+        return fail()
+    j = f"_{B}_j"
+    jl = lambda: ast.Name(id=j, ctx=ast.Load())  # noqa: E731
+    setb = ast.Assign(targets=[ast.Name(id=B, ctx=ast.Store())], value=ast.BinOp(left=ast.Constant(value=1), op=ast.LShift(), right=ast.BinOp(left=ast.Constant(value=K), op=ast.Sub(), right=jl())))
+    body = list(rest)
+    pre = []
+    for k, x in enumerate(rest):
+        v = x.target.id if (isinstance(x, ast.AugAssign) and isinstance(x.op, ast.Add) and isinstance(x.target, ast.Name) and one(x.value)) else None
+        if v is None or v == B:
+            continue
+        c0 = env.get(v)
+        others = [y for y in rest if y is not x]
+        if c0 is None or not (is_const(c0) and type(c0[1]) is int) or v in _assigned_names(others) or _read_after_loop(s, fnode, v):
+            continue
+        at = lambda d, c=c0[1]: ast.BinOp(left=ast.Constant(value=c + d), op=ast.Add(), right=jl())  # noqa: E731
+        pre.append(ast.Assign(targets=[ast.Name(id=v, ctx=ast.Store())], value=at(0)))
+        body[k] = ast.copy_location(ast.Assign(targets=[ast.Name(id=v, ctx=ast.Store())], value=at(1)), x)
+    for n_ in [setb] + pre:
+        ast.copy_location(n_, s.body[0])
+    it = ast.Call(func=ast.Name(id="range", ctx=ast.Load()), args=[ast.Constant(value=K + 1)], keywords=[])
+    f = ast.For(target=ast.Name(id=j, ctx=ast.Store()), iter=it, body=[setb] + pre + body, orelse=[], type_comment=None)
+    ast.copy_location(f, s)
+    for n_ in (f.target, it):
+        ast.copy_location(n_, s.test)
     ast.fix_missing_locations(f)
     f._sa_from_while = s
     return f
